@@ -30,7 +30,11 @@ Local Open Scope N_scope.
 Definition C17_full_statement : Prop :=
   forall e, in_quantifier e = true -> exists cs, compile e = Ok cs /\ C17_spec e cs.
 
-(* REFUTED (the faithful model and the real compiler agree on each witness; KNOWN_FINDINGS.txt):
+(* REFUTED (the faithful model and the real compiler agree on each witness; KNOWN_FINDINGS.txt).
+   The contradicted clause is the first one: "Each entity declaration YIELDS Keys, Data, ... a query
+   service with Get, List and Events methods, ... one upsert topic per summary": each witness below
+   is a declaration inside the quantifier that the compiler REJECTS (link error `symbol ... already
+   defined`, because the expansion puts a field of its own next to the user's), so it yields nothing.
    a primary key named page or query is inside the quantifier and its expansion does not link *)
 Theorem C17_full_refuted : ~ C17_full_statement.
 Proof. exact full_refuted. Qed.
@@ -53,31 +57,6 @@ Theorem C17_event_type_refuted :
 Proof. exact event_type_refuted. Qed.
 Print Assumptions C17_event_type_refuted.
 
-(* a key named status (metadata, data) compiles and State then has two JSON properties of that
-   name; a key named event (metadata) does the same to Event *)
-Theorem C17_state_property_clash_refuted :
-  exists cs m, in_quantifier (mk_min "status") = true /\ compile (mk_min "status") = Ok cs
-    /\ has_msg cs 0 m /\ m_name m = sp_name (mk_min "status") "State"
-    /\ json_props cs m = [bs "metadata"; bs "status"; bs "data"; bs "status"]
-    /\ ~ NoDup (json_props cs m).
-Proof. exact state_property_clash_refuted. Qed.
-Print Assumptions C17_state_property_clash_refuted.
-
-Theorem C17_event_property_clash_refuted :
-  exists cs m, in_quantifier (mk_min "event") = true /\ compile (mk_min "event") = Ok cs
-    /\ has_msg cs 0 m /\ m_name m = sp_name (mk_min "event") "Event"
-    /\ json_props cs m = [bs "metadata"; bs "event"; bs "event"].
-Proof. exact event_property_clash_refuted. Qed.
-Print Assumptions C17_event_property_clash_refuted.
-
-(* an optional array (or map) compiles to a repeated field inside a oneof: the compiler links it,
-   protodesc.NewFiles - the first step of deriving the client API - rejects the package *)
-Theorem C17_optional_repeated_refuted :
-  exists cs, in_quantifier optional_array_sample = true /\ reserved_free optional_array_sample = true
-    /\ compile optional_array_sample = Ok cs /\ client_accepts cs = false.
-Proof. exact optional_repeated_refuted. Qed.
-Print Assumptions C17_optional_repeated_refuted.
-
 (* an entity named Page (or Events, with eventsInGet): the entity's own property in the List (Get)
    response has the name of the page (events) property next to it *)
 Theorem C17_entity_named_page_refuted :
@@ -85,39 +64,63 @@ Theorem C17_entity_named_page_refuted :
 Proof. exact entity_named_page_refuted. Qed.
 Print Assumptions C17_entity_named_page_refuted.
 
-Theorem C17_status_case_refuted :
-  exists cs, in_quantifier status_case_sample = true /\ reserved_free status_case_sample = true
-    /\ compile status_case_sample = Ok cs /\ client_accepts cs = false.
-Proof. exact status_case_refuted. Qed.
-Print Assumptions C17_status_case_refuted.
-
 (* PARTIAL (1): THE FULL STATEMENT HOLDS FOR EVERY DECLARATION WITHOUT RESERVED NAMES.
-   [reserved_free e]: no primary/shard key named page or query, no key named metadata / data /
-   status / event, no summary field named upsert, no event or oneof option named type, the entity
-   not named page (nor events when eventsInGet is set) - exactly the names the expansion itself
-   puts next to the user's.  Such a declaration in the quantifier is ACCEPTED (parser validation,
-   walker, conversion, link step) and its output satisfies every clause of the specification. *)
+   [reserved_free e]: no primary/shard key named page or query, no summary field named upsert, no
+   event or oneof option named type, the entity not named page (nor events when eventsInGet is set)
+   - exactly the names that make the compiler reject the declaration (the four refutations above).
+   Such a declaration in the quantifier is ACCEPTED (parser validation, walker, conversion, link
+   step) and its output satisfies every clause of the specification.  A key named metadata / data /
+   status / event, an optional array or map, statuses that differ only in case are NOT reserved:
+   they are inside the quantifier and satisfy the property (see C17_unreserved_names below). *)
 Theorem C17_full_modulo_reserved : forall e, in_quantifier e = true -> reserved_free e = true ->
   exists cs, compile e = Ok cs /\ C17_spec e cs.
 Proof. exact full_modulo_reserved. Qed.
 Print Assumptions C17_full_modulo_reserved.
 
+(* the same for a source file with several entity declarations (they share the three packages) *)
+Theorem C17_file_acceptance : forall es, file_quantifier es = true -> exists cs, compile_file es = Ok cs.
+Proof. exact file_acceptance. Qed.
+Print Assumptions C17_file_acceptance.
+
 Theorem C17_acceptance : forall e, in_quantifier e = true -> reserved_free e = true -> exists cs, compile e = Ok cs.
 Proof. exact acceptance. Qed.
 Print Assumptions C17_acceptance.
+
+(* names and shapes that earlier versions of this check recorded as findings and that contradict NO
+   clause of C17 (known-findings audit 2.6-2.8): they are inside the quantifier, free of reserved names,
+   and therefore covered by C17_full_modulo_reserved.  What they do to other properties' clauses
+   (C18: unique property names; C16: the client API derives without error) is stated in
+   proofs/EntitySpecProofs.v as facts about the model (state_property_names_witness,
+   status_case_in_scope), not as refutations of C17. *)
+Theorem C17_unreserved_names :
+  forallb (fun n => in_quantifier (mk_min n) && reserved_free (mk_min n))
+          ["status"; "metadata"; "data"; "event"; "keys"; "events"]%string = true
+  /\ (in_quantifier optional_array_sample = true /\ reserved_free optional_array_sample = true)
+  /\ (in_quantifier status_case_sample = true /\ reserved_free status_case_sample = true).
+Proof.
+  exact (conj property_named_keys_in_scope
+        (conj (conj (proj1 optional_array_in_scope) (proj1 (proj2 optional_array_in_scope)))
+              (conj (proj1 status_case_in_scope) (proj1 (proj2 status_case_in_scope))))).
+Qed.
+Print Assumptions C17_unreserved_names.
 
 (* PARTIAL (2): for EVERY declaration the model compiles (in the quantifier or not, reserved
    names or not) the output satisfies the core specification; for declarations in the
    quantifier the path parameters of Get and Events are exactly the primary and shard keys in
    declaration order and Events = Get + "/events" (no clean-path hypothesis: path.Join's
-   cleaning is part of the proof); State / Event are objects when no key uses one of their
-   property names. *)
+   cleaning is part of the proof). *)
 Theorem C17_full_partial : forall e cs, compile e = Ok cs ->
-  C17_spec_core e cs
-  /\ (in_quantifier e = true -> spec_query_paths e cs)
-  /\ (in_quantifier e = true -> reserved_free e = true -> spec_objects e cs).
+  C17_spec_core e cs /\ (in_quantifier e = true -> spec_query_paths e cs).
 Proof. exact full_partial. Qed.
 Print Assumptions C17_full_partial.
+
+(* NOT a clause of C17 (it is C18's "property names are unique within each object", seen from the
+   declaration): State / Event have pairwise distinct JSON properties - after flattening the keys -
+   whenever no key is named metadata / data / status / event *)
+Theorem C17_objects_distinct_props : forall e cs, compile e = Ok cs ->
+  in_quantifier e = true -> state_event_names_free e = true -> spec_objects e cs.
+Proof. exact objects_distinct_props. Qed.
+Print Assumptions C17_objects_distinct_props.
 
 (* what acceptance by [compile] means: at least one status (the parser's validation), the
    conversion succeeded (references resolve, no optional+required field, path parameters are
@@ -193,14 +196,17 @@ Example C17_expand_total : forall e, is_panic (expand e) = false /\ expand e <> 
 Proof. exact expand_total. Qed.
 Print Assumptions C17_expand_total.
 
-(* Go panics are not hidden by the model: the conversion panics exactly when the walker accepted a
-   declaration whose query block carries listRequest / eventsListRequest settings (SetExtension of a
-   MessageOptions extension on MethodOptions in visitServiceMethodNode; cmpb's known C07 finding;
-   outside C17's quantifier: [in_quantifier] requires list_settings e = false) *)
-Theorem C17_convert_panics : forall e,
-  is_panic (convert e) = true <-> (exists cs, expand e = Ok cs) /\ list_settings e = true.
-Proof. exact convert_panics. Qed.
-Print Assumptions C17_convert_panics.
+(* Go panics are not hidden by the model - and the conversion has none: listRequest /
+   eventsListRequest settings in the query block (outside C17's quantifier: [in_quantifier] requires
+   list_settings e = false) are a positioned conversion error since fix 985f10a (before,
+   proto.SetExtension of a MessageOptions extension on MethodOptions panicked) *)
+Theorem C17_convert_never_panics : forall e, is_panic (convert e) = false /\ convert e <> OutOfFuel.
+Proof. exact convert_never_panics. Qed.
+Print Assumptions C17_convert_never_panics.
+
+Theorem C17_convert_list_settings : forall e, list_settings e = true -> forall cs, convert e <> Ok cs.
+Proof. exact convert_list_settings. Qed.
+Print Assumptions C17_convert_list_settings.
 
 (* 3. the same annotation everywhere: psm options and service options carry
       ToSnake(name), topics carry <package>.ToCamel(name) *)
@@ -289,6 +295,19 @@ Theorem C17_get_events_paths : forall e,
        http_rule_path (query_base e) ++ [47] ++ join [47] (map brace (get_keys e) ++ [bs "events"]).
 Proof. exact get_events_paths. Qed.
 Print Assumptions C17_get_events_paths.
+
+(* the general form, for ANY base path (leading / trailing / doubled slashes are cleaned by path.Join
+   inside the proof): when no segment of the base is a ":name" or "{...}" part and the key names (and
+   their snake forms) contain no '/', the path parameters of Get and of Events are the snake names of
+   the primary and shard keys in declaration order, and Events is Get followed by /events *)
+Theorem C17_query_paths_params : forall e,
+  Forall (fun p => plain_seg p = true) (segments (query_base e)) ->
+  Forall (fun u => key_seg_ok u = true) (get_keys e) ->
+  rule_params (nth 0 (query_paths e) []) = map (fun u => to_snake (uf_name u)) (get_keys e)
+  /\ rule_params (nth 2 (query_paths e) []) = map (fun u => to_snake (uf_name u)) (get_keys e)
+  /\ nth 2 (query_paths e) [] = nth 0 (query_paths e) [] ++ bs "/events".
+Proof. exact query_paths_params. Qed.
+Print Assumptions C17_query_paths_params.
 
 (* for ordinary declarations (identifier names, package without ':', no baseUrlPath override)
    the paths are literally /<pkg>/<snake name>/q/{k}.. and .../events over the primary+shard keys *)
@@ -486,6 +505,45 @@ Proof.
         (conj model_externals_agree entity_parts_from_model))))))).
 Qed.
 Print Assumptions C17_code_tables_from_model.
+
+(* the REMAINING tables, derived from the model as well (ent3): a second probe declaration whose names tell
+   the four strcase functions apart is expanded by [expand_with]; its components are cut into one segment
+   per function of entityNode.run; then
+   - the names each segment defines / refers to are the literals that function passes to componentName /
+     innerRef (suffix_sites);
+   - every generated name is the strcase function the code calls in that function, applied to the declared
+     name, and no other function of entity.go calls strcase (strcase_calls, status literal,
+     entity_name_function);
+   - every name / path built with Sprintf is the code's format applied, the topic message / service names
+     are topic.go's formats applied, and entity.go has no further format (sprintf_formats, topic_formats);
+   - the literal property names of each function are the properties of its segment the user did not
+     declare (property_names).
+   So each regenerated table is compared with what the MODEL FUNCTION computes; the hand-typed tables of
+   C17_code_tables remain only as a second, order-sensitive drift detector. *)
+Theorem C17_segments_cover : concat (map segment (seq 0 10)) = probe2_cs.
+Proof. exact segments_cover. Qed.
+Print Assumptions C17_segments_cover.
+
+Theorem C17_suffix_sites_from_model : forallb segment_matches (seq 0 10) = true.
+Proof. exact suffix_sites_from_model. Qed.
+Print Assumptions C17_suffix_sites_from_model.
+
+Theorem C17_strcase_calls_from_model : strcase_calls_from_model_stmt.
+Proof. exact strcase_calls_from_model. Qed.
+Print Assumptions C17_strcase_calls_from_model.
+
+Theorem C17_formats_from_model : formats_from_model2_stmt.
+Proof. exact formats_from_model2. Qed.
+Print Assumptions C17_formats_from_model.
+
+Theorem C17_property_names_from_model :
+  forallb (fun i => match nth_error EntityGen.run_order i with
+                    | Some f => same_names (seg_props i) (prop_lits f)
+                    | None => false end) [3; 5; 6; 8]%nat = true
+  /\ same_strings (dedup (map fst EntityGen.property_names))
+                  (flat_map (fun i => match nth_error EntityGen.run_order i with Some f => [f] | None => [] end) [3; 5; 6; 8]%nat) = true.
+Proof. exact property_names_from_model2. Qed.
+Print Assumptions C17_property_names_from_model.
 
 (* the README's documented example (re-read from README.md on every run): the declaration it
    prints expands, in the model, to every message, field, status value, rpc and path it shows *)
